@@ -239,3 +239,48 @@ def check_C20(ctx):
     cfg = "MC_Deposits_thorough.cfg" if ctx.thorough else "MC_Deposits.cfg"
     ctx.standard("MC_Deposits", "deposits", "Trace_Deposits", n_random=20000 if ctx.thorough else 1500,
                  shards=16 if ctx.thorough else 8, corrupt=corrupt, mc_kw={"workers": 8, "cfg": cfg})
+
+
+# ------------------------------------------------------------------------------- C08
+
+@prop("C08", "scenario = offered UTxOs + previous inputs + outputs + strategy; each leaf = one complete outcome of the random "
+             "choices. (a) every terminated behaviour of the L1 model MC_CoinSelection is replayed through the RNG hook; "
+             "(b) for every initial state of the model and for seeded random scenarios (4 strategies, assets, fee-sized units) "
+             "ALL draw scripts are enumerated depth-first on the real code; non-trivial = a leaf whose outcome the validator "
+             "judged; distinct = (strategy, #offered, #previous, #added or err, #draws)")
+def check_C08(ctx):
+    ctx.assumptions += ["the thread RNG is replaced by the scripted RNG of rust/src/verif_hooks.rs (cfg csl_verif); gen_range(0..n) is the only RNG call of the strategies",
+                        "builder inputs are read back by building a body from a clone of the builder with fee 0",
+                        "minimum fee and total output are the builder's own getters (cross-checked under C06/C05)",
+                        "exploration of a scenario is cut at max_leaves schedules (noted as exploration-truncated; such scenarios are not counted exhaustive)"]
+    if ctx.replay:
+        return ctx.run_replay()
+    r = ctx.mc("MC_CoinSelection", cfg="MC_CoinSelection.cfg", workers=8)
+    ctx.mc("MC_CoinSelection", cfg="MC_CoinSelection_F1.cfg", workers=8)
+    scn = r.by("SCN")
+    replay = [s for s in scn if s["mode"] == "replay"]
+    explore = [s for s in scn if s["mode"] == "explore"]
+    import random
+    rnd = random.Random(ctx.seed)
+    if not ctx.thorough:
+        replay = rnd.sample(replay, min(len(replay), 6000))
+        explore = rnd.sample(explore, min(len(explore), 120))
+    p = ctx.write_scn(replay + explore)
+    run = ctx.drive("select", scn=p, n=4000 if ctx.thorough else 600)
+
+    def corrupt(recs, rnd):
+        idx = [i for i, r in enumerate(recs) if r.get("ev") == "Reset" and r["utxo"]]
+        if not idx:
+            return False
+        for i in idx:          # every offered UTxO loses a lovelace-unit: some successful leaf is no longer covered
+            for u in recs[i]["utxo"]:
+                v = u["value"]["coin_n"]
+                if v:
+                    v[0] = max(0, v[0] - 1) if len(v) > 1 else 0
+        return True
+    em = ctx.validate("Trace_CoinSelection", run, shards=16, corrupt=corrupt)
+    if em is not None:
+        ctx.extra["model_behaviours_replayed"] = len(replay)
+        ctx.extra["model_behaviours_conforming"] = sum(1 for e in em if e.get("t") == "CONF")
+        ctx.extra["scenarios_explored_exhaustively"] = sum(1 for e in em if e.get("t") == "EXH")
+        ctx.extra["schedules_walked_on_real_code"] = sum(e.get("leaves", 0) for e in em if e.get("t") == "EXH")
